@@ -54,6 +54,7 @@ class Frame:
         self.kw = kw
         self.path = path        # spec path (list) for bf
         self.obs = []
+        self.key_args = (terms.show(args), terms.show(kw))   # taken before user code can mutate them
         self.wrote = None
         self.n = 0              # statements executed
 
@@ -87,7 +88,7 @@ class Run:
             if fr.n < len(root):
                 return root[fr.n]
             return {'s': 'return'}
-        key = json.dumps([fr.f, terms.show(fr.ver), terms.show(fr.args), terms.show(fr.kw),
+        key = json.dumps([fr.f, terms.show(fr.ver), fr.key_args[0], fr.key_args[1],
                           fr.path, fr.obs], sort_keys=True)
         memo = self.sc.get('memo') or {}
         if key in memo:
@@ -123,12 +124,23 @@ class Run:
             elif kind == 'is_dir':
                 v = builder.is_dir(fn)
             elif kind == 'list_dir':
-                v = list(builder.list_dir(fn))
+                raw = builder.list_dir(fn)
+                v = list(raw)
                 e['raw_sorted'] = (v == sorted(v))
                 v = sorted(v)
+                if st.get('mut'):
+                    mutate_in_place(raw)
             elif kind == 'walk':
                 w = builder.walk(fn, td)
                 v = [{'d': self.sb.unpath(d), 'sd': sorted(sd), 'sf': sorted(sf)} for d, sd, sf in w]
+                if st.get('mut'):
+                    for item in w:
+                        for part in item[1:]:
+                            if isinstance(part, list):
+                                del part[:]
+                                part.append('MUT')
+                    if isinstance(w, list):
+                        w.append(('MUT', [], []))
             elif kind == 'get_size':
                 v = builder.get_size(fn)
                 if not isinstance(v, int) or isinstance(v, bool):
@@ -193,6 +205,11 @@ class Run:
             e = run.ev(ev='invoke', recv=terms.to_term(list(a)), recvkw=terms.to_term(dict(k)))
             if is_bf:
                 e['path_ok'] = (path_recv == run.sb.path(st['p']) and path_recv.__class__ is str)
+            if st.get('mut_args'):
+                for x in a:
+                    mutate_in_place(x)
+                for x in k.values():
+                    mutate_in_place(x)
             try:
                 return run.run_frame(b, sub)
             except BaseException as x:
@@ -229,7 +246,10 @@ class Run:
                     ret=terms.to_term(ret))
         if is_bf:
             e['real'] = _real_state(self.sb.path(st['p']))
-        return ['R', terms.show(ret)]
+        shown = terms.show(ret)
+        if st.get('mut'):
+            mutate_in_place(ret)
+        return ['R', shown]
 
     def run_frame(self, builder, fr):
         """Interpret one function activation.  Returns the function's value."""
@@ -268,6 +288,8 @@ class Run:
                     v = terms.from_term(st['v']) if isinstance(st['v'], dict) and 'k' in st['v'] else st['v']
                 elif st.get('nonjson'):
                     v = NotJson()
+                elif st.get('container'):
+                    v = ['r' + digest([fr.f, terms.show(fr.ver), fr.obs]), [1, [2]], {'a': [3], 'b': {'c': []}}]
                 else:
                     v = 'r' + digest([fr.f, terms.show(fr.ver), fr.obs])
                 self.ev(ev='fn_end', out='return', v=terms.to_term(v), x=0, prop=False, err='')
@@ -371,6 +393,24 @@ class Run:
             self.sb.destroy()
         return {'id': self.sc.get('id', ''), 'cache': list(self.sb.cache_path),
                 'events': self.events}
+
+
+def mutate_in_place(v, depth=0):
+    """In-place edits of every mutable container reachable from v (C11)."""
+    if isinstance(v, list):
+        for x in list(v):
+            if depth < 3:
+                mutate_in_place(x, depth + 1)
+        v.append('MUT')
+    elif isinstance(v, dict):
+        for x in list(v.values()):
+            if depth < 3:
+                mutate_in_place(x, depth + 1)
+        v['MUT'] = 1
+    elif isinstance(v, tuple):
+        for x in v:
+            if depth < 3:
+                mutate_in_place(x, depth + 1)
 
 
 def _real_state(fn):
